@@ -144,3 +144,29 @@ Theorem C02_call_of_a_function_not_yet_emitted_rejected : forall T self G f args
   String.eqb f self = false -> flookup f T = None -> trc_expr T self G (CCall f args) = None.
 Proof. exact rejects_call_of_unknown_function. Qed.
 Print Assumptions C02_call_of_a_function_not_yet_emitted_rejected.
+
+(* ... and with mutable variables (Tr/MiniGoS.v): refused, or faithful in value
+   and store *)
+From GV Require Import Tr.MiniGo Tr.MiniGoS Tr.MiniGoSProofs.
+
+Theorem C02_calls_and_variables_rejected_or_faithful : forall P,
+  trs_prog P = None \/
+  exists vs, trs_prog P = Some vs /\
+    Forall2 (fun fn F => forall n args v s s',
+               length args = length (sf_params fn) ->
+               sgo_body n P (rev (combine (map fst (sf_params fn)) (map Imm args))) s (sf_body fn) = Some (v, s') ->
+               exists m, eval m (call_expr F args) s = RVal v s') P vs.
+Proof. exact sprog_rejected_or_faithful. Qed.
+Print Assumptions C02_calls_and_variables_rejected_or_faithful.
+
+Theorem C02_assignment_to_a_let_bound_variable_rejected_with_calls : forall T self G x t e k,
+  tlookup x G = Some (false, t) -> trs_body T self G (SAsg x e k) = None.
+Proof. exact srejects_assign_to_letbound. Qed.
+
+Theorem C02_unsupported_op_assignment_rejected_with_calls : forall T self G x e k op,
+  assign_op op = false -> trs_body T self G (SOpAsg op x e k) = None.
+Proof. exact srejects_unsupported_opassign. Qed.
+
+Theorem C02_incdec_of_a_let_bound_variable_rejected_with_calls : forall T self G x t inc k,
+  tlookup x G = Some (false, t) -> trs_body T self G (SIncD inc x k) = None.
+Proof. exact srejects_incdec_of_letbound. Qed.
